@@ -82,6 +82,39 @@ type instr struct {
 	lenCap  map[*ast.CallExpr]string
 	funcs   []funcSpan
 	mapAcc  map[ast.Expr]memKind // map-typed operand expressions whose map object is read / written here
+	// captured: local variables and parameters that a function literal uses from outside its own body; they live on
+	// the heap and may be shared between goroutines (closures run by workers, option closures run by several callers)
+	captured map[*types.Var]bool
+}
+
+// scanCaptured records the variables that function literals capture.
+func (in *instr) scanCaptured(f *ast.File) {
+	var lits []*ast.FuncLit
+	ast.Inspect(f, func(n ast.Node) bool {
+		if n == nil {
+			return true
+		}
+		if l, ok := n.(*ast.FuncLit); ok {
+			lits = append(lits, l)
+		}
+		return true
+	})
+	for _, lit := range lits {
+		ast.Inspect(lit.Body, func(n ast.Node) bool {
+			id, ok := n.(*ast.Ident)
+			if !ok {
+				return true
+			}
+			obj, ok := in.info.Uses[id].(*types.Var)
+			if !ok || obj.IsField() || obj.Parent() == in.pkg.Scope() || obj.Pkg() != in.pkg {
+				return true
+			}
+			if obj.Pos() < lit.Pos() || obj.Pos() > lit.End() {
+				in.captured[obj] = true
+			}
+			return true
+		})
+	}
 }
 
 func (in *instr) isMap(e ast.Expr) bool {
@@ -252,6 +285,10 @@ func (in *instr) candidate(e ast.Expr) bool {
 			return false
 		}
 		if obj.Parent() == in.pkg.Scope() {
+			return true
+		}
+		if in.captured[obj] {
+			// (a captured variable of a channel / func / interface type is still just a variable: reading it is a read)
 			return true
 		}
 		return false
@@ -619,7 +656,12 @@ func main() {
 			fmt.Println("MCGEN-LOAD-FAILED (the tree does not type-check):", p.Errors)
 			os.Exit(3)
 		}
-		in := &instr{info: p.TypesInfo, pkg: p.Types, fset: p.Fset, decide: map[ast.Expr]memKind{}, rangeCh: map[*ast.RangeStmt]bool{}, lenCap: map[*ast.CallExpr]string{}, mapAcc: map[ast.Expr]memKind{}}
+		in := &instr{info: p.TypesInfo, pkg: p.Types, fset: p.Fset, decide: map[ast.Expr]memKind{}, rangeCh: map[*ast.RangeStmt]bool{}, lenCap: map[*ast.CallExpr]string{}, mapAcc: map[ast.Expr]memKind{}, captured: map[*types.Var]bool{}}
+		if mem {
+			for _, f := range p.Syntax {
+				in.scanCaptured(f)
+			}
+		}
 		for _, f := range p.Syntax {
 			path := p.Fset.Position(f.Package).Filename
 			in.prescan(f)
